@@ -46,6 +46,42 @@ CHECKS = {
              "identities exactly (complex families: all areas are multiples of 1/4) or within 1e-9 relative (float tables).",
         ref="DESIGN.md 5 (C05)",
         technique="bounded-exhaustive enumeration of real code, differential oracle between the four operations"),
+    "C06": dict(
+        text="Exhaustive enumeration of law instances on the real implementation: operand swap for intersection/union/xor on every "
+             "unordered pair of the quick complex families in both encodings (identical ring sets up to ring start), A op A for every "
+             "operand (region, validity, boundary cell set == boundary of A; empty result for difference/xor), three encodings of "
+             "the empty operand on either side for all four operations, and every pair with B translated to a touching or separated "
+             "bounding box along x and y (obvious combination as region, and ring for ring where the boxes are disjoint); float table: "
+             "swap compared as regions.",
+        ref="DESIGN.md 5 (C06)",
+        technique="bounded-exhaustive enumeration of algebraic law instances on real code (explicit-state, no sampling)"),
+    "C07": dict(
+        text="Deviation-bounded exhaustive exploration: every ordered pair of the listed complex families is re-run under every single "
+             "deviation of the kinds the property names (each other ring start, each ring reversed, all reversed, part and hole "
+             "permutations, a repeated vertex at every position, the four trait implementations); thorough adds every pair of "
+             "deviations (one per side) on G22/G32. The result's ring set in a normal form insensitive to start, direction and repeated "
+             "vertices must equal the canonical call's; float table: regions at witnesses.",
+        ref="DESIGN.md 3.4, 5 (C07)",
+        technique="deviation-bounded exhaustive enumeration (bound 1 quick, 2 thorough) of representations on real code"),
+    "C08": dict(
+        text="Every ordered pair of the listed families x 7 power-of-two scalings (bit-identical scaled result, also on the float table "
+             "where arithmetic is inexact) x 5 integer translations (identical translated ring sets, exact families) x 7 axis symmetries "
+             "(region at transformed witnesses equals the model).",
+        ref="DESIGN.md 5 (C08)",
+        technique="bounded-exhaustive enumeration of (input, transform) pairs on real code, metamorphic oracle"),
+    "C09": dict(
+        text="Every ordered pair of the S22 family (2x2 core plus satellites left/right/below/above on either operand) is compared with the "
+             "same pair without satellites: identical near rings, far parts contribute exactly per the model; every pair of further "
+             "families is re-run with one far square added to either operand in 4 directions, listed first or last. Hook flags record "
+             "on how many pairs the far parts switch the bounding-box shortcut or the early break on or off (both paths are taken).",
+        ref="DESIGN.md 5 (C09)",
+        technique="bounded-exhaustive enumeration on real code, differential oracle with/without far parts; shortcut paths observed by hooks"),
+    "C10": dict(
+        text="Every pair of every complex family is executed in f32 and f64: widened f32 result bit-identical to the f64 result and the "
+             "same number of sweep events; the region/structure/provenance/consistency oracles of C01 C02 C04 C05 are evaluated on the "
+             "f32 results; a general-position table rounded to f32 is checked with single-precision tolerance.",
+        ref="DESIGN.md 5 (C10)",
+        technique="bounded-exhaustive enumeration over inputs x float type on real code, differential f32/f64 oracle"),
 }
 
 NOT_YET = "check under construction in this round (designed in DESIGN.md section 5, not yet registered)"
